@@ -62,8 +62,11 @@ CLAIMED = {
                  "every element via a ghost index) specified for each operation under contract; out-of-range at() and "
                  "arithmetic on non-matching ranges report an error and write nothing; no access outside the owned block "
                  "(pointer/bounds obligations, symbolic length up to 65536, unbounded via loop contracts); Array<n>=2..>::is_contiguous is true iff every "
-                 "sub-array is contiguous and starts where the previous one ends (sub-arrays abstracted by contiguity flag, size and first address). "
-                 "Not decided: the other Array<n>=2..4 operations, iteration order, shared-memory views."),
+                 "sub-array is contiguous and starts where the previous one ends (sub-arrays abstracted by contiguity flag, size and first address); "
+                 "Array<n>=2..>::init on a data block gives sub-array k the block that starts where sub-array k-1 ends, the first at the block's start, each of the size of its own sub-range "
+                 "(so the array aliases the block exactly and is_contiguous() holds); Array<n>=2..>::resize gives the outer range requested and resizes every sub-array exactly once with "
+                 "the sub-range of its own index (loop contracts, <= 8 sub-arrays per proof). "
+                 "Not decided: the other Array<n>=2..4 operations (grow, fill_from/copy_to, arithmetic), iteration order, the sub-array statements one dimension down as an explicit induction."),
         "note": ("trusted: cbmc 6.11.0; extraction rule classes; shared_ptr as sole-owner pointer; std::copy/fill/equal models "
                  "(each verified against its contract); induction over operation histories argued in DESIGN.md, not machine-checked"),
     },
@@ -196,7 +199,7 @@ CLAIMED = {
                  "(g) the range accessors get_min_rb/get_max_rb/get_min_b/get_max_b/get_max_a/get_max_ra return the ranges the geometry prescribes; "
                  "iterate_efficiencies visits every partner of a detector's fan exactly once (four nested loop contracts). "
                  "(h) make_block_data adds every pair of the stored half exactly once, to the block cell named by the four quotients, and nothing else (four nested loop contracts, per block geometry); "
-                 "FanProjData::sum(ra,a) reads every partner of the fan exactly once at (ra,a,rb,b mod N) (two loop contracts). "
+                 "FanProjData::sum(ra,a) reads every partner of the fan exactly once at (ra,a,rb,b mod N) and make_fan_sum_data stores for every detector its own fan sum, once (loop contracts). "
                  "Not decided: that the division undoes the multiplication (rounding), the rotation/mirror map of apply_geo_norm and make_geo_data, the float sums themselves (only which elements enter them), "
                  "update, KL descent of the ML iterations, the loops around the maps; the FanProjData and GeoData3D constructors, GeoData3D::is_in_data and operator() ARE under contract (index ranges = reader contracts, element addressed inside them); BlockData3D is a typedef of FanProjData (covered); the 2D classes DetPairData / GeoData / BlockData are not."),
         "note": ("trusted: cbmc 6.11.0 + kissat; IndexRange/Array grow deliver the requested ranges (C11); bin <-> detector "
